@@ -44,12 +44,12 @@ CHECKS = {
                 text='No false negatives at any later point, bit array equals the reference after every insert, caps, lossless wire form, empty-data filters match everything.',
                 note='Trusted: /verif/ref/bloom.py (validated on the MurmurHash3 vectors). Sizing taken from the constructed filter after checking the caps, so float rounding cannot alarm.'),
     'C12': dict(engine='CHAINHIST', level='exploration', design='DESIGN.md §5 C12',
-                technique='deterministic simulation over configuration histories: seeded interleavings of SelectParams with address minting/parsing by parties on different chains, checked against a per-chain reference table and reference codecs',
+                technique='deterministic simulation over configuration histories: seeded interleavings of SelectParams (by the caller or by another thread, handed off deterministically) with address minting/parsing by parties on different chains, checked against a per-chain reference table and reference codecs',
                 text='Round trip, class/prefix/payload per chain, refusal with the address error of every text not valid under the chain selected at parse time, params/coreparams agreement after every step.',
                 note='Trusted: ref/chain.py constants (typed from Bitcoin Core chainparams), ref/base58.py, ref/bech32.py.'),
     'C10': dict(engine='CHAN', level='fault_enumeration', design='DESIGN.md §5 C10',
-                technique='deterministic simulation of a noisy channel: for each seeded Base58Check string every single-character substitution, deletion and insertion (and byte-layer edits before encoding) is injected between encoder and decoder',
-                text='Accept-iff-reference and error class for every single edit; inverse/reference equality on the fault-free channel.',
+                technique='deterministic simulation of a noisy channel: for each seeded Base58Check string every single-character substitution, deletion and insertion (and byte-layer edits before encoding) is injected between encoder and decoder; an asynchronous exception is delivered at a planned line event inside the decoder',
+                text='Accept-iff-reference and error class for every single edit; an exception delivered into the decoder comes out as itself, never as a verdict; inverse/reference equality on the fault-free channel.',
                 note='Trusted: ref/base58.py (big-integer definition).'),
     'C11': dict(engine='CHAN', level='fault_enumeration', design='DESIGN.md §5 C11',
                 technique='deterministic simulation of a noisy channel: for each seeded segwit address every single substitution, sampled/exhaustive double substitutions, seeded triples/quadruples, case flips, truncations and extensions are injected between encoder and decoder',
